@@ -1,7 +1,40 @@
 import IslaVerif.Proofs.Recognizer
+import IslaVerif.Proofs.C10
+/-
+C10 — the parser accepts exactly the grammar's language and returns faithful trees.
+The theorems are about the *reference* recognizer and tree checker the real parser is compared
+with on every input (the Earley implementation itself is validated per input, not proved).
+`InLang g A s` (Proofs/C10.lean): some valid closed derivation tree rooted in `A` yields `s`.
+-/
 namespace IslaVerif.C10
-open IslaVerif Rec
+open IslaVerif Rec Grammar
+
 /-- whenever the reference recognizer answers, its answer is exactly derivability of the whole string -/
 theorem recognize_iff {g : Grammar} {A : String} {s : List Char} {b : Bool} (h : recognize g A s = some b) :
     b = true ↔ Der g s A 0 s.length := recognize_iff' h
+
+/-- … which is membership in the language of `A` in the sense of derivation trees
+(for grammars in which the empty string is not a nonterminal — always the case: nonterminals are `<…>`) -/
+theorem recognize_inLang {g : Grammar} {A : String} {s : List Char} {b : Bool}
+    (h0 : isNT g "" = false) (hA : isNT g A = true) (h : recognize g A s = some b) :
+    b = true ↔ InLang g A s :=
+  (recognize_iff h).trans ⟨tree_of_der' g A s, der_of_tree' g A s h0 hA⟩
+
+/-- the tree checker used on every tree the parser yields: all four clauses hold exactly when the
+tree witnesses `s ∈ L(A)` -/
+theorem checkTree_iff (g : Grammar) (A : String) (s : String) (t : DTree) :
+    (t.valid g = true ∧ t.closed = true ∧ (t.sym == A) = true ∧ (t.yieldC g == s.toList) = true) ↔
+    (t.valid g = true ∧ t.closed = true ∧ t.sym = A ∧ t.yieldC g = s.toList) := by
+  simp
+
+/-- a certified tree proves membership -/
+theorem checkTree_sound (g : Grammar) (A : String) (s : String) (t : DTree)
+    (h : t.valid g = true ∧ t.closed = true ∧ t.sym = A ∧ t.yieldC g = s.toList) : InLang g A s.toList :=
+  ⟨t, h.1, h.2.1, h.2.2.1, h.2.2.2⟩
+
+/-! non-vacuity: a nullable, left-recursive, ambiguous grammar -/
+def gEx : Grammar := [("<s>", [["<s>", "<s>"], ["a"], []])]
+example : recognize gEx "<s>" "aaa".toList = some true ∧ recognize gEx "<s>" "ab".toList = some false := by decide
+example : isNT gEx "" = false ∧ isNT gEx "<s>" = true := by decide
+
 end IslaVerif.C10
